@@ -3,7 +3,7 @@
    The C++ tokenizer/parser (extern/filereaderlp) is an oracle, not modelled: the theorems
    are about the writer's conventions, the reader's conversion (cylp.pyx) and the text wrapper. *)
 From Coq Require Import List ZArith NArith QArith Qcanon Bool Arith.
-From Dimod Require Import Base.Util Model.Poly Model.LP Model.LPTok Model.LPRead Model.ChkC12 Gen.Gen_LP Proofs.LPFacts Proofs.LPTokFacts Proofs.LPReadFacts.
+From Dimod Require Import Base.Util Model.Poly Model.LP Model.LPTok Model.LPRead Model.LPLex Model.ChkC12 Gen.Gen_LP Proofs.LPFacts Proofs.LPTokFacts Proofs.LPReadFacts Proofs.LPLexFacts Proofs.LPLexTokFacts.
 Import ListNotations.
 Open Scope Qc_scope.
 
@@ -202,6 +202,199 @@ Proof. exact wrap_constants_match_source. Qed.
 Print Assumptions C12_wrap_constants_match_source.
 
 (* ================================================================== *)
+(* the reader's tokenizer as code on the CHARACTERS of the file (Model/LPLex.v: readnexttoken with the
+   generated single-character / delimiter / line-discarding / blank tables and a model of strtod's span) *)
+
+Theorem C12_lex_single_char_table_matches_source : map fst single_table = SINGLE_CHAR_TOKENS.
+Proof. exact single_table_matches_source. Qed.
+Print Assumptions C12_lex_single_char_table_matches_source.
+
+(* the tokenizer never looks past the next blank (or colon): tokenizing u ++ rest is tokenizing u and
+   then rest from the mode u ended in - for every text u, every mode, whatever follows the blank *)
+Theorem C12_lex_lookahead_is_local :
+  forall u m rest, stop rest -> lx m (u ++ rest) = then_lx (lx m u) rest.
+Proof. exact lx_app. Qed.
+Print Assumptions C12_lex_lookahead_is_local.
+
+(* hence a text is tokenized word by word (words = maximal blank-free runs, lines broken anywhere),
+   as long as no word leaves the tokenizer discarding the rest of its line *)
+Theorem C12_lex_by_words :
+  forall s, Forall closed_word (tokens s) -> lex_text s = Some (flat_map word_toks (tokens s)).
+Proof. exact lex_by_words. Qed.
+Print Assumptions C12_lex_by_words.
+
+(* a label dump accepts, outside the reported defect regions (leading line-discarding character,
+   inf / nan prefix), is one identifier token - for every such label, of any length *)
+Theorem C12_lex_label :
+  forall s, validate_label (Some s) = true -> raw_safe s = true -> lx (LTok 0) s = Some ([RStr s], LTok 0).
+Proof. exact lx_label. Qed.
+Print Assumptions C12_lex_label.
+
+Theorem C12_lex_label_colon :
+  forall s, validate_label (Some s) = true -> raw_safe s = true ->
+    lx (LTok 0) (s ++ [58%N]) = Some ([RStr s; RColon], LTok 0).
+Proof. exact lx_label_colon. Qed.
+Print Assumptions C12_lex_label_colon.
+
+Theorem C12_label_safe_is_raw_safe : forall r s, label_safe r s = true -> raw_safe s = true.
+Proof. exact label_safe_raw. Qed.
+Print Assumptions C12_label_safe_is_raw_safe.
+
+(* every decimal numeral (digits [. digits] [e [sign] digits], any length) is one constant token made of
+   all of its characters *)
+Theorem C12_lex_decimal : forall w, decimal_word w -> lx (LTok 0) w = Some ([RCons w], LTok 0).
+Proof. exact lx_decimal. Qed.
+Print Assumptions C12_lex_decimal.
+
+Theorem C12_lex_fixed_words :
+  Forall (fun p => lx (LTok 0) (fst p) = Some (snd p, LTok 0)) fixed_words.
+Proof. exact lx_fixed_words. Qed.
+Print Assumptions C12_lex_fixed_words.
+
+(* ... and they are exactly the fixed words GENERATED from lp.py's dump (every literal piece of its f.write
+   calls, the values of _sign and _sense, the section names; translators/lp_grammar.py refuses any other
+   literal glued to a formatted value than the colon behind a label) *)
+Theorem C12_fixed_words_match_source :
+  forallb (fun w => in_texts w (map fst fixed_words)) WRITER_FIXED_WORDS = true /\
+  forallb (fun p => in_texts (fst p) WRITER_FIXED_WORDS) fixed_words = true /\
+  length WRITER_FIXED_WORDS = length fixed_words.
+Proof. exact fixed_words_match_source. Qed.
+Print Assumptions C12_fixed_words_match_source.
+
+(* the WHOLE output language of the writer at once: any sequence of writer words (labels, `label:`,
+   decimal numerals, the fixed words), each written with a blank behind it and wrapped by
+   _WidthLimitedFile at whatever column, is tokenized by the reader into exactly the raw tokens of
+   those words, in order *)
+Theorem C12_lex_writer_language :
+  forall wx : list (text * list rawtok),
+    Forall (fun p => no_blank (fst p)) wx -> Forall (fun p => writer_word (fst p) (snd p)) wx ->
+    lex_text (wrap (word_writes (map fst wx))) = Some (flat_map snd wx).
+Proof. exact lex_writer_language. Qed.
+Print Assumptions C12_lex_writer_language.
+
+(* ------------------------------------------------------------------ *)
+(* the keyword stage (Reader::processtokens as code: Model/LPLex.v process) on the writer's language.
+   The text is seen as a sequence of GROUPS (Proofs/LPLexFacts.v item): a name, `label:`, sign + numeral,
+   numeral, `-numeral`, `+ [`, `]`, `]/2`, `*`, a comparison, a section word, `Subject To`.  What
+   lp.dump writes is such a sequence (by inspection of dump; checked on every generated text by the
+   correspondence KTripFull), the theorems hold for EVERY sequence of groups. *)
+
+(* one group in front of anything that does not start with a colon or `[` *)
+Theorem C12_process_group :
+  forall tbl it rest, item_ok tbl it -> starts_ok rest ->
+    process tbl (raw_of it ++ rest) = option_map (app (ptok_of it)) (process tbl rest).
+Proof. exact process_item. Qed.
+Print Assumptions C12_process_group.
+
+Theorem C12_process_groups :
+  forall tbl its, Forall (item_ok tbl) its ->
+    process_all tbl (flat_map raw_of its) = Some (flat_map ptok_of its).
+Proof. exact process_items. Qed.
+Print Assumptions C12_process_groups.
+
+(* THE CHAIN from the characters: words written with a blank behind them, lines broken by
+   _WidthLimitedFile at any column, tokenizer, keyword stage *)
+Theorem C12_chars_to_processed_tokens :
+  forall tbl its,
+    Forall (item_ok tbl) its -> Forall item_lex_ok its ->
+    Forall (fun p => no_blank (fst p)) (flat_map words_of its) ->
+    match lex_text (wrap (word_writes (map fst (flat_map words_of its)))) with
+    | Some raws => process_all tbl raws
+    | None => None
+    end = Some (flat_map ptok_of its).
+Proof. exact chars_to_processed. Qed.
+Print Assumptions C12_chars_to_processed_tokens.
+
+(* the hypotheses on names and labels follow from the label rules: accepted by dump, outside the reported
+   defect regions (label_safe) and not `subject` / `such` (first words of the two-word keywords, the
+   open finding lp_label_two_word_keyword) *)
+Theorem C12_safe_labels_satisfy_chain_hypotheses :
+  forall tbl a,
+    validate_label (Some a) = true ->
+    in_texts (lower_text a) [w_subject; w_such; w_semi] = false ->
+    (label_safe AsVariable a = true -> item_ok tbl (IName a) /\ item_lex_ok (IName a)) /\
+    (label_safe AsConstraint a = true -> item_ok tbl (ILabel a) /\ item_lex_ok (ILabel a)).
+Proof. exact safe_label_items. Qed.
+Print Assumptions C12_safe_labels_satisfy_chain_hypotheses.
+
+Theorem C12_writer_section_words_satisfy_chain_hypotheses :
+  forall tbl,
+  Forall (fun wk => item_ok tbl (ISec1 (fst wk) (snd wk)) /\ item_lex_ok (ISec1 (fst wk) (snd wk)))
+    [ ([77; 105; 110; 105; 109; 105; 122; 101]%N, SEC_OBJMIN); ([66; 111; 117; 110; 100; 115]%N, SEC_BOUNDS);
+      ([66; 105; 110; 97; 114; 121]%N, SEC_BIN); ([71; 101; 110; 101; 114; 97; 108]%N, SEC_GEN);
+      ([69; 110; 100]%N, SEC_END) ].
+Proof. exact writer_sections_ok. Qed.
+Print Assumptions C12_writer_section_words_satisfy_chain_hypotheses.
+
+(* ------------------------------------------------------------------ *)
+(* the last step of the reader model and the ROUND TRIP FROM THE CHARACTERS.  items_cqm m is the sequence of
+   groups of the text of m, mirroring lp.dump / print_cqm (vn, cn: the texts of the variable and constraint
+   labels; numw: the numeral written for a non-negative number) *)
+
+(* Uv / Uc: the variables / constraint labels in use (model_in: m mentions no others); the label tables
+   `names` / `cons` invert the naming on them.
+   the processed tokens of the text of m, translated by LPLex.to_tokens (state: section, `obj:`, signed
+   numerals, `]/2`), are exactly print_cqm m *)
+Theorem C12_to_tokens_of_written_model :
+  forall vn cn numw names cons (Uv Uc : nat -> Prop),
+    (forall v, Uv v -> index_of (vn v) names = Some v) -> (forall l, Uc l -> index_of (cn l) cons = Some l) ->
+    forall m, model_in Uv Uc m ->
+      to_tokens names cons SEC_NONE false false (pt (items_cqm vn cn numw m)) = Some (print_cqm m).
+Proof. exact to_tokens_items_cqm. Qed.
+Print Assumptions C12_to_tokens_of_written_model.
+
+(* characters -> tokenizer -> keyword stage -> translation -> reference parser = the model, for every
+   model, every line-break position *)
+Theorem C12_chars_to_model :
+  forall vn cn numw names cons (Uv Uc : nat -> Prop) tbl m,
+    (forall v, Uv v -> index_of (vn v) names = Some v) -> (forall l, Uc l -> index_of (cn l) cons = Some l) ->
+    model_in Uv Uc m ->
+    let its := items_cqm vn cn numw m in
+    Forall (item_ok tbl) its -> Forall item_lex_ok its ->
+    Forall (fun p => no_blank (fst p)) (flat_map words_of its) ->
+    let text := wrap (word_writes (map fst (flat_map words_of its))) in
+    read_tokens tbl names cons text = Some (print_cqm m) /\
+    match read_tokens tbl names cons text with Some toks => parse_tokens toks | None => None end = Some m.
+Proof. exact chars_to_model. Qed.
+Print Assumptions C12_chars_to_model.
+
+(* the group hypotheses follow from conditions on the names, the labels and the numerals alone: every number
+   written in the file (model_nums) has its magnitude written as a decimal word whose value the reader gets
+   right (numeral_ok) *)
+Theorem C12_written_model_groups_ok :
+  forall vn cn numw tbl (Uv Uc : nat -> Prop),
+    (forall v, Uv v -> P tbl (IName (vn v))) -> (forall l, Uc l -> P tbl (ILabel (cn l))) ->
+    forall m, model_in Uv Uc m -> Forall (numeral_ok numw tbl) (model_nums m) ->
+      Forall (item_ok tbl) (items_cqm vn cn numw m) /\ Forall item_lex_ok (items_cqm vn cn numw m).
+Proof. exact items_cqm_ok. Qed.
+Print Assumptions C12_written_model_groups_ok.
+
+(* THE PROPERTY ON THE MODELS, from the characters: writer conventions (doubling in `[ ]/2`, offsets moved to
+   the right-hand side, zero terms dropped, bounds lines, Binary / General lists), the text with any line
+   breaks, the reader model, reader conventions (1/2, clamped bounds, types from the sections): same variables
+   with types and bounds, same constraint labels, senses and shifted right-hand sides, objective with the
+   same energy everywhere.  Hypotheses: labels are read back (safe, see C12_safe_labels_satisfy_chain_hypotheses),
+   numerals are decimal words whose value the reader gets right, bounds within the vartype ranges. *)
+Theorem C12_lp_chars_roundtrip :
+  forall vn cn numw names cons (Uv Uc : nat -> Prop) tbl (c : cqm),
+    (forall v, Uv v -> index_of (vn v) names = Some v) -> (forall l, Uc l -> index_of (cn l) cons = Some l) ->
+    (forall v, Uv v -> P tbl (IName (vn v))) -> (forall l, Uc l -> P tbl (ILabel (cn l))) ->
+    model_in Uv Uc (lpmodel_of_cqm c) ->
+    Forall (numeral_ok numw tbl) (model_nums (lpmodel_of_cqm c)) ->
+    let its := items_cqm vn cn numw (lpmodel_of_cqm c) in
+    Forall (fun p => no_blank (fst p)) (flat_map words_of its) ->
+    NoDup (map vi_label (q_vars c)) -> Forall var_wf (q_vars c) ->
+    let text := wrap (word_writes (map fst (flat_map words_of its))) in
+    exists toks m,
+      read_tokens tbl names cons text = Some toks /\ parse_tokens toks = Some m /\
+      let c' := cqm_of_lpmodel (map vi_label (q_vars c)) m in
+      q_vars c' = q_vars c /\
+      q_cons c' = map (fun lc => (fst lc, read_constraint (write_constraint (snd lc)))) (q_cons c) /\
+      (forall s, energy (q_obj c') s = energy (q_obj c) s).
+Proof. exact lp_chars_roundtrip. Qed.
+Print Assumptions C12_lp_chars_roundtrip.
+
+(* ================================================================== *)
 (* hypotheses are satisfiable on non-trivial data *)
 
 Example C12_ex_parse :
@@ -214,6 +407,7 @@ Example C12_ex_parse :
   | None => false
   end = true.
 Proof. vm_compute. split; reflexivity. Qed.
+Print Assumptions C12_ex_parse.
 
 (* " obj: " "+ 2 x " ... : a break is inserted before the write that would pass column 79 *)
 Example C12_ex_wrap :
@@ -223,6 +417,7 @@ Example C12_ex_wrap :
   map fst (wrap_pieces 0%nat ws) = [false; false; false; false; false; false; false; false; false; true; false] /\
   List.length (tokens (wrap ws)) = 33%nat.
 Proof. vm_compute. repeat split; reflexivity. Qed.
+Print Assumptions C12_ex_wrap.
 
 Example C12_ex_terms :
   let p := mkPoly (qc 3 1) [(0%nat, qc 2 1); (1%nat, 0)] [(0%nat, 1%nat, qc 1 4); (1%nat, 1%nat, qc (-3) 2)] in
@@ -230,6 +425,7 @@ Example C12_ex_terms :
   map fst (lo_lin (write_objective p)) = [0%nat] /\
   poly_coeff_eqb 2 (read_objective (write_objective p)) p = true.
 Proof. vm_compute. repeat split; reflexivity. Qed.
+Print Assumptions C12_ex_terms.
 
 Example C12_ex_labels :
   validate_label (Some [120; 46; 53]%N) = true /\        (* x.5 *)
@@ -238,3 +434,46 @@ Example C12_ex_labels :
   validate_label (Some []) = false /\ validate_label None = false /\
   validate_label (Some (repeat 97%N 256)) = false /\ validate_label (Some (repeat 97%N 255)) = true.
 Proof. vm_compute. repeat split; reflexivity. Qed.
+Print Assumptions C12_ex_labels.
+
+(* a whole file from its characters: tokenizer, keyword stage, reference parser *)
+Example C12_ex_lex_file :
+  let t := fun l : list N => l in
+  let file := t [77;105;110;105;109;105;122;101;10; 32;111;98;106;58;32; 43;32;50;32;120;32; 45;32;48;46;49;50;53;32;121;57;32;
+                 43;32;91;32;43;32;51;32;120;32;42;32;121;57;32;93;47;50;32; 45;32;48;46;50;53;32;10;10;
+                 83;117;98;106;101;99;116;32;84;111;32;10; 32;99;59;49;58;32;43;32;49;32;120;10;32;45;32;50;32;121;57;32;32;60;61;32;45;49;101;43;51;48;10;10;
+                 66;111;117;110;100;115;10; 32;45;53;46;48;32;60;61;32;121;57;32;60;61;32;49;101;43;51;48;10;10;
+                 66;105;110;97;114;121;10;32;120;10;10; 71;101;110;101;114;97;108;10;32;121;57;10; 69;110;100]%N in
+  let big := Q2Qc (inject_Z 1000000000000000019884624838656) in
+  let tbl := [([49;101;43;51;48]%N, big)] in
+  match read_tokens tbl [[120]%N; [121;57]%N] [[99;59;49]%N] file with
+  | Some toks =>
+      match parse_tokens toks with
+      | Some m => Nat.eqb (List.length (m_cons m)) 1 && list_eqb Nat.eqb (m_binary m) [0%nat]
+                  && list_eqb Nat.eqb (m_general m) [1%nat] && Nat.eqb (List.length (lo_quad2 (m_obj m))) 1
+                  && Qc_eqb (lo_const (m_obj m)) (qc (-1) 4)
+      | None => false
+      end
+  | None => false
+  end = true /\ numtable_ok tbl = true.
+Proof. vm_compute. split; reflexivity. Qed.
+Print Assumptions C12_ex_lex_file.
+
+(* the hypotheses of the chain are satisfiable: a name, a label, numerals *)
+Example C12_ex_chain_hypotheses :
+  let x1 := [120; 49]%N in let c0 := [99; 59; 48]%N in        (* x1   c;0 *)
+  (item_ok [] (IName x1) /\ item_lex_ok (IName x1)) /\ (item_ok [] (ILabel c0) /\ item_lex_ok (ILabel c0)) /\
+  match num_value [] [48; 46; 53]%N with Some q => Qc_eqb q (qc 1 2) | None => false end = true /\    (* 0.5 *)
+  decimal_word [48; 46; 53]%N /\ decimal_word [49; 101; 43; 51; 48]%N /\                             (* 1e+30 *)
+  match num_value [([49; 101; 43; 51; 48]%N, big_real)] [49; 101; 43; 51; 48]%N with
+  | Some q => Qc_eqb q big_real | None => false end = true /\
+  num_value [] [49; 101; 43; 51; 48]%N = None.
+Proof.
+  cbv zeta. split; [|split].
+  - apply (proj1 (safe_label_items [] [120; 49]%N eq_refl eq_refl)). reflexivity.
+  - apply (proj2 (safe_label_items [] [99; 59; 48]%N eq_refl eq_refl)). reflexivity.
+  - split; [vm_compute; reflexivity|]. split; [|split; [|split; vm_compute; reflexivity]].
+    + split; [exists 48%N, [46; 53]%N; split; reflexivity | split; reflexivity].
+    + split; [exists 49%N, [101; 43; 51; 48]%N; split; reflexivity | split; reflexivity].
+Qed.
+Print Assumptions C12_ex_chain_hypotheses.
